@@ -54,6 +54,7 @@ pub fn eval_prop(graph: &SymbolicAsyncGraph, proposition: &str) -> GraphColoredV
             .mk_state_variable_is_true(network_variable),
         graph.symbolic_context(),
     )
+    .intersect(graph.unit_colored_vertices())
 }
 
 /// Evaluate atomic sub-formula containing only a HCTL variable.
